@@ -65,12 +65,13 @@ def validity(kind, P):
 def run(ctx):
     import cyecca.lie as L
     N = (N_QUICK if ctx.quick else N_THOROUGH)
+    rounds = 1 if ctx.quick else 5
     groups = {"quat": L.SO3Quat, "mrp": L.SO3Mrp, "dcm": L.SO3Dcm, "euler": L.SO3EulerB321}
     units = [(s, d) for s in KINDS for d in KINDS if s != d] + [("matrix", d) for d in KINDS] + [("shadow", "mrp")]
-    for i, (src, dst) in enumerate(units):
+    for i, (src, dst) in [(i_, u_) for _r in range(rounds) for i_, u_ in enumerate(units)]:
         if i % ctx.nshards != ctx.shard:
             continue
-        rng = ctx.rng("c07:%s:%s" % (src, dst))
+        rng = ctx.rng("c07:%s:%s:%d" % (src, dst, len(ctx.tallies)))
         axis, ang = rotations(rng, N)
         if src == "shadow":
             shadow_switch(ctx, groups, rng, N)
